@@ -523,10 +523,10 @@ M("C06", "flush-single-read", "breaking",
   [(TP, "TLSServerProtocol._flush_outgoing", "            while True:\n                pending = self.tls_conn.bio_read(8192)\n                if not pending:\n                    break\n                self.transport.write(pending)\n", "            pending = self.tls_conn.bio_read(8192)\n            if pending:\n                self.transport.write(pending)\n")],
   "R2:server.tls_protocol:TLSServerProtocol._flush_outgoing:flush-incomplete")
 M("C06", "body-sliced", "breaking",
-  [(P, SR, "                body = response.body.encode(\"utf-8\")\n", "                body = response.body[:65536].encode(\"utf-8\")\n")],
+  [(P, SR, "                body = response.body.encode(\"utf-8\", errors=\"replace\")\n", "                body = response.body[:65536].encode(\"utf-8\")\n")],
   "R3:server.protocol:GeminiServerProtocol._send_response:body-altered")
 M("C06", "body-latin1", "breaking",
-  [(P, SR, "                body = response.body.encode(\"utf-8\")\n", "                body = response.body.encode(\"latin-1\", errors=\"replace\")\n")],
+  [(P, SR, "                body = response.body.encode(\"utf-8\", errors=\"replace\")\n", "                body = response.body.encode(\"latin-1\", errors=\"replace\")\n")],
   "R3:server.protocol:GeminiServerProtocol._send_response:body-")
 M("C06", "rewrap-drops-body", "breaking",
   [(P, "GeminiServerProtocol._handle_async_handler_result", "                    body=response.body,\n", "                    body=None,\n")],
